@@ -753,7 +753,12 @@ pub fn run(tier: Tier) -> i32 {
                 continue;
             }
             // (three evaluations of three expressions per job: ~400 scheduling points)
-            if (b.name.starts_with("B4") || b.name.starts_with("B2-index")) && bound + 1 > max_b {
+            if b.name.starts_with("B4") && bound + 1 > max_b {
+                continue;
+            }
+            // (578 scheduling points: two preemptions are 167 000 schedules of four parses each on
+            // one OS thread; the jobs of this body interfere at job granularity)
+            if b.name.starts_with("B2-index") && bound > 1 {
                 continue;
             }
             // (270 nested evaluations per thread: one preemption anywhere inside the first
